@@ -35,7 +35,7 @@ func cloneTx(tx *bt.Tx) *bt.Tx { return parseDesc(descTx(tx)) }
 func genC04(e *emitter, tier string, seed uint64) {
 	r := newRng(seed ^ 0xC04)
 	quick := tier == "quick"
-	shapes := 6
+	shapes := 9
 	if !quick {
 		shapes = 120
 	}
@@ -49,12 +49,23 @@ func genC04(e *emitter, tier string, seed uint64) {
 		nIn, nOut := 1+r.n(4), r.n(5)
 		tx := &bt.Tx{Version: 1 + uint32(r.n(2)), LockTime: uint32(r.n(1000))}
 		locks := make([][]byte, nIn)
+		hasReturn := false
 		sats := make([]uint64, nIn)
 		for i := 0; i < nIn; i++ {
 			locks[i] = p2pkhOf(k)
-			if r.chance(15) {
+			if r.chance(25) {
 				locks[i] = append(append([]byte{}, p2pkhOf(k)...), mustHex("0063036f726451046161616100026869")...)
 				locks[i] = append(locks[i], 0x68)
+				// enriched inscription: OP_RETURN and a tail of 1..5 bytes that is part of the script code
+				if r.chance(60) {
+					locks[i] = append(locks[i], 0x6a)
+					if n := r.n(5); n == 0 {
+						locks[i] = append(locks[i], 0x00)
+					} else {
+						locks[i] = append(append(locks[i], byte(n)), r.bytes(n)...)
+					}
+					hasReturn = true
+				}
 			}
 			sats[i] = uint64(1 + r.n(100000))
 			tx.Inputs = append(tx.Inputs, mkInput(r.bytes(32), uint32(r.n(4)), nil, uint32(0xfffffff0+r.n(16)), sats[i], scr(locks[i])))
@@ -63,6 +74,19 @@ func genC04(e *emitter, tier string, seed uint64) {
 			tx.Outputs = append(tx.Outputs, &bt.Output{Satoshis: uint64(r.n(5000)), LockingScript: scr(p2pkhOf(genKey(r)))})
 		}
 		pos := r.n(nIn)
+		if sh < 5 {
+			// the first shapes of every run: the signed input spends an enriched inscription whose OP_RETURN tail is a
+			// push of sh bytes (serialised tails of 1..5 bytes)
+			l := append(append([]byte{}, p2pkhOf(k)...), mustHex("0063036f726451046161616100026869686a")...)
+			if sh == 0 {
+				l = append(l, 0x00)
+			} else {
+				l = append(append(l, byte(sh)), r.bytes(sh)...)
+			}
+			locks[pos] = l
+			tx.Inputs[pos].PreviousTxScript = scr(l)
+			hasReturn = true
+		}
 		for fi, ft := range flagTypes {
 			if quick && (fi+sh)%3 != 0 {
 				continue
@@ -70,10 +94,13 @@ func genC04(e *emitter, tier string, seed uint64) {
 			st := cloneTx(tx)
 			err := st.FillInput(context.Background(), &unlocker.Simple{PrivateKey: k.priv}, bt.UnlockerParams{InputIdx: uint32(pos), SigHashFlags: ft.ht})
 			if err != nil {
-				e.emit("C04.sign-error", err.Error(), "")
+				e.note("sign-error")
 				continue
 			}
 			era := []int{0, fAfterGenesis}[r.n(2)]
+			if hasReturn {
+				era = fAfterGenesis // a top-level OP_RETURN is only spendable under the post-Genesis rules
+			}
 			flags := ft.flags | era
 			run := func(kind string, mt *bt.Tx, midx int, msats uint64, mlock []byte) {
 				// the unlocking script travels with the signed input
